@@ -31,7 +31,7 @@ META = {
     "ready": True,
     "level": "model_checking",
     "technique": "TLA+ specification with two independent transcriptions (layout-side reservation vs writer-side consumption) compared exhaustively by TLC; the enumerated cases and an option cross product replayed into the real linker, whose diagnostics are matched against the accounting-failure messages",
-    "level_text": "TLC compares reservation and consumption per generated part on all 2351 accepted relocation-site cases x offset parity x address parity x sibling-RELR (x86-64) and on all 520 reachable ValueFlags combinations x 5 output kinds x RELR; agreement holds except on three named deviations, which the replay reproduces on the real binary and nothing else fails. An option cross product (432 combinations) over single-site programs of all five output kinds is linked by the real wild.",
+    "level_text": "TLC compares reservation and consumption per generated part on all 2087 accepted relocation-site cases x offset parity x address parity x sibling-RELR (x86-64) and on all 520 reachable ValueFlags combinations x 5 output kinds x RELR; agreement holds except on three named deviations, which the replay reproduces on the real binary and nothing else fails. An option cross product (432 combinations) over single-site programs of all five output kinds is linked by the real wild.",
     "level_note": "Parts modelled: GOT, PLT-GOT, .rela.plt, .rela.dyn (general/relative), .relr.dyn; symbol tables, hash tables, eh_frame, version and note parts are covered only by the option cross product replay (hook-free probe of wild's diagnostics), not by the model. x86-64 only.",
     "engine": "tlc",
 }
